@@ -40,6 +40,19 @@ FREE = bytes(range(256))
 FREE_TEXT = bytes(range(32, 127))
 
 
+_PER_KEY = {}
+
+
+def _violation(ctx, key, what, replay_obj=None):
+    """ctx.violation, but replay files and VIOLATION lines only for the first two inputs of every key, so that the
+    20 replay files of a failing run cover the distinct failure classes; every further input is still counted"""
+    _PER_KEY[key] = _PER_KEY.get(key, 0) + 1
+    if _PER_KEY[key] <= 2 or any(f['key'] == key for f in ctx.known):
+        return ctx.violation(key, what, replay_obj)
+    ctx.violations.append({'key': key, 'what': what})
+    return True
+
+
 # ------------------------------------------------------------------ rendering opaque runs
 
 class Renderer:
@@ -278,6 +291,11 @@ def ref_class(r):
     return 'wellformed' if r['strict'] else 'lenient'
 
 
+def _reason(r):
+    """why the reference decoder + typing rules do not see a well-formed message"""
+    return r['why'] if not r['ok'] else 'untyped'
+
+
 def ref_encode(t):
     """canonical encoder over reference trees (used only for the law decode-then-encode on strict input)"""
     k, v = t
@@ -359,7 +377,7 @@ class Node:
     def feed(self, data):
         """-> None if the handler returned, else the exception (Hang included)"""
         try:
-            with watchdog(WATCHDOG_S):
+            with watchdog(WATCHDOG_S + len(data) / 8192):      # 64 KiB decode in ~50 ms; a hang never returns
                 with self.loop:
                     self.proto.datagram_received(data, SENDER)
         except BaseException as e:  # pylint: disable=broad-except
@@ -451,7 +469,7 @@ class Judge:
             if exc is not None:
                 if isinstance(exc, Hang):
                     self.hangs += 1
-                ctx.violation(self.escape_key(exc, data),
+                _violation(ctx, self.escape_key(exc, data),
                               f'datagram_received({_short(data)}) [{cls}, {origin}] did not return: {type(exc).__name__}: {str(exc)[:120]}',
                               replay)
                 return
@@ -474,10 +492,10 @@ class Judge:
                 if bad:
                     what.append(f'replied with {[b[0] for b in bad]}')
                 if what:
-                    ctx.violation(f'garbage-accepted:{fam}:{note}',
+                    _violation(ctx, f'garbage-accepted:{fam}:{note}',
                                   f'{_short(data)} is not a well-formed message ({note}) but: ' + ', '.join(what), replay)
                 elif fails < 1:
-                    ctx.violation(f'garbage-no-failure-recorded:{fam}:{note}',
+                    _violation(ctx, f'garbage-no-failure-recorded:{fam}:{note}',
                                   f'{_short(data)} ({note}) was dropped without recording a failure against the sender', replay)
             elif exp is not None:
                 got = {'routing': sorted(node.idtags.get(x, -1) for x in r1),
@@ -487,7 +505,7 @@ class Judge:
                         'sent': [{'ty': s['ty'], 'rpc': s['rpc']} for s in exp['sent']], 'pend': exp['pend']}
                 if got != want:
                     if judge == 'full':
-                        ctx.violation(f'wellformed-mishandled:{origin.split(":")[1] if ":" in origin else fam}',
+                        _violation(ctx, f'wellformed-mishandled:{origin.split(":")[1] if ":" in origin else fam}',
                                       f'{_short(data)} is a well-formed message; node state {got}, specified {want}', replay)
                     else:
                         self.drift += 1
@@ -496,7 +514,7 @@ class Judge:
             if cls in ('garbage', 'wellformed'):
                 why = node.probe()
                 if why:
-                    ctx.violation(f'node-stops-serving-after:{cls}', f'after {_short(data)}: {why}', replay)
+                    _violation(ctx, f'node-stops-serving-after:{cls}', f'after {_short(data)}: {why}', replay)
         finally:
             node.close()
 
@@ -548,12 +566,12 @@ def check_decode(ctx, data, tree, origin):
     except BaseException as e:  # pylint: disable=broad-except
         if isinstance(e, (KeyboardInterrupt, SystemExit)):
             raise
-        ctx.violation(f'wellformed-not-decoded:{origin.split(":")[0]}',
+        _violation(ctx, f'wellformed-not-decoded:{origin.split(":")[0]}',
                       f'decode_datagram({_short(data)}) raised {type(e).__name__}: {str(e)[:100]} on a well-formed message',
                       {'hex': data.hex(), 'origin': origin})
         return
     if not same_message(msg, tree):
-        ctx.violation(f'decoded-differently:{origin.split(":")[0]}',
+        _violation(ctx, f'decoded-differently:{origin.split(":")[0]}',
                       f'decode_datagram({_short(data)}) = {vars(msg)!r:.300}, the reference decoder reads {to_py(tree)!r:.300}',
                       {'hex': data.hex(), 'origin': origin})
 
@@ -569,7 +587,7 @@ def leg_codec(ctx):
     res = tlc.run('Bencode', cfg, ctx, workers=1, coverage=False, timeout=1500, label='Bencode-emit')
     ctx.add_tlc(res, f'Bencode: all message shapes {consts}; laws {B_INVS}; emission')
     if res.violated:
-        ctx.violation('model:' + ','.join(res.violated), 'codec law violated in the specification', res.error_trace[:4000])
+        _violation(ctx, 'model:' + ','.join(res.violated), 'codec law violated in the specification', res.error_trace[:4000])
         return []
     cases = tlc.printed_json(res, 'CASE')
     if len(cases) != res.distinct:
@@ -598,23 +616,23 @@ def leg_codec(ctx):
             if c['ok']:
                 want = R.render(c['bytes'])
                 if exc is not None or bytes(got) != want:
-                    ctx.violation('compact-encode', f'make_compact_address({ip}, {c["port"]}) = {got!r} / {exc!r}, specified {want!r}', rep)
+                    _violation(ctx, 'compact-encode', f'make_compact_address({ip}, {c["port"]}) = {got!r} / {exc!r}, specified {want!r}', rep)
                     continue
                 back, exc = call(decode_compact_address, want)
                 if exc is not None or (bytes(back[0]), back[1], back[2]) != (nid, ip, c['port']):
-                    ctx.violation('compact-decode', f'decode_compact_address({want!r}) = {back!r} / {exc!r}', rep)
+                    _violation(ctx, 'compact-decode', f'decode_compact_address({want!r}) = {back!r} / {exc!r}', rep)
             else:
                 if exc is None:
-                    ctx.violation('compact-encode-accepts-invalid', f'make_compact_address({ip}, {c["port"]}, id of {c["idlen"]} bytes) returned {got!r}', rep)
+                    _violation(ctx, 'compact-encode-accepts-invalid', f'make_compact_address({ip}, {c["port"]}, id of {c["idlen"]} bytes) returned {got!r}', rep)
                 elif not isinstance(exc, ValueError):
-                    ctx.violation(f'compact-encode-raises:{type(exc).__name__}', f'make_compact_address({ip}, {c["port"]}) raised {exc!r}', rep)
+                    _violation(ctx, f'compact-encode-raises:{type(exc).__name__}', f'make_compact_address({ip}, {c["port"]}) raised {exc!r}', rep)
                 if c['bytes']:
                     raw = R.render(c['bytes'])
                     back, exc = call(decode_compact_address, raw)
                     if exc is None:
-                        ctx.violation('compact-decode-accepts-invalid', f'decode_compact_address({raw!r}) returned {back!r}', rep)
+                        _violation(ctx, 'compact-decode-accepts-invalid', f'decode_compact_address({raw!r}) returned {back!r}', rep)
                     elif not isinstance(exc, ValueError):
-                        ctx.violation(f'compact-decode-raises:{type(exc).__name__}', f'decode_compact_address({raw!r}) raised {exc!r}', rep)
+                        _violation(ctx, f'compact-decode-raises:{type(exc).__name__}', f'decode_compact_address({raw!r}) raised {exc!r}', rep)
             continue
         # ---- a protocol message
         nmsg += 1
@@ -628,7 +646,7 @@ def leg_codec(ctx):
         # 1. the real encoder
         got, exc = call(bencode, _copy(obj))
         if exc is not None or got != want:
-            ctx.violation(f'encode-differs:{name}', f'bencode({obj!r:.120}): {_diff(got, want, exc)}', rep)
+            _violation(ctx, f'encode-differs:{name}', f'bencode({obj!r:.120}): {_diff(got, want, exc)}', rep)
             continue
         # 2. the datagram classes
         f = obj
@@ -655,7 +673,7 @@ def leg_codec(ctx):
             got, exc = call(fn)
             ctx.count()
             if exc is not None or got != want:
-                ctx.violation(f'datagram-encode-differs:{name}', f'{label}: {_diff(got, want, exc)}', rep)
+                _violation(ctx, f'datagram-encode-differs:{name}', f'{label}: {_diff(got, want, exc)}', rep)
                 bad = True
         if bad:
             continue
@@ -663,14 +681,15 @@ def leg_codec(ctx):
         check_decode(ctx, want, tree, f'msg:{name}')
         got, exc = call(bdecode, want)
         if exc is not None or got != obj:
-            ctx.violation(f'bdecode-differs:{name}', f'bdecode gives {got!r:.200} / {exc!r}; encoded value was {obj!r:.200}', rep)
+            _violation(ctx, f'bdecode-differs:{name}', f'bdecode gives {got!r:.200} / {exc!r}; encoded value was {obj!r:.200}', rep)
         # 4. the independent reference decoder reads the REAL bytes identically
         r = ref_decode_all(want)
         if not (r['ok'] and r['strict'] and r['v'] == tree and r['nx'] == len(want)) or ref_class(r) != 'wellformed' \
                 or ref_encode(r['v']) != want:
             raise MachineryError(f'transcribed reference decoder disagrees with Bencode.tla on {name}: {r!r:.300}')
-        if nmsg % 60 == 1:
-            ctx.sample({'message': name, 'bytes': len(want), 'real_bencode_equals_spec': True, 'head': want[:40].hex()})
+        if names[name] == 1:
+            ctx.sample({'message': name, 'bytes': len(want), 'real_bencode_equals_spec': True,
+                        'decode_datagram_gives_it_back': True, 'tail': want[-32:].hex()}, cap=9)
     need = {'ping', 'store', 'findNode', 'findValue', 'pong', 'stored', 'nodes', 'value', 'error'}
     if set(names) != need or names['nodes'] != 17:
         raise MachineryError(f'Bencode: message shapes missing: {names}')
@@ -708,12 +727,12 @@ def _server_style(x):
 
 def leg_ingress(ctx, judge):
     consts = {'MAXNEST': MAXNEST, 'FULL': False, 'EMIT': True, 'DEPTHS': {1, 10, 1000, 5000},
-              'W2': 400 if ctx.thorough else 4, 'W3': 4 if ctx.thorough else 2, 'TINYLEN': 5 if ctx.thorough else 4}
+              'W2': 400 if ctx.thorough else 4, 'W3': 6 if ctx.thorough else 2, 'TINYLEN': 5 if ctx.thorough else 4}
     cfg = tlc.make_cfg(spec='ISpec', constants=consts, invariants=I_INVS, constraint='IEmit')
     res = tlc.run('DhtIngress', cfg, ctx, workers=1, coverage=False, timeout=3000, label='DhtIngress-emit')
     ctx.add_tlc(res, f'DhtIngress: all structurally generated inputs {_j(consts)}; invariants {I_INVS}; emission')
     if res.violated:
-        ctx.violation('model:' + ','.join(res.violated), 'invariant violated in the specification', res.error_trace[:4000])
+        _violation(ctx, 'model:' + ','.join(res.violated), 'invariant violated in the specification', res.error_trace[:4000])
         return None
     cases = tlc.printed_json(res, 'CASE')
     # one state before Receive, one after it (emitted), one after Probe: both actions were taken for every case
@@ -765,10 +784,10 @@ def leg_ingress(ctx, judge):
             bases[c['base']] = data
         if k == 'wellformed':
             check_decode(ctx, data, r['v'], origin)
-        judge.one(data, k, origin, judge=c['judge'], exp=c['exp'], note=c['why'] or 'untyped')
+        judge.one(data, k, origin, judge=c['judge'], exp=c['exp'], note=_reason(r))
         if fams[(c['fam'], k)] == 1:
             ctx.sample({'input': _short(data), 'family': c['fam'], 'class_by_spec': k, 'reason': c['why'],
-                        'judged': c['judge']}, cap=14)
+                        'judged': c['judge']}, cap=24)
     ctx.leg('ingress', cases=len(cases), by_family_and_class={f'{a}/{b}': n for (a, b), n in sorted(fams.items())},
             reached=reach, constants=_j(consts), wall_real_code_s=round(time.time() - t0, 1))
     return bases
@@ -803,7 +822,7 @@ def leg_random(ctx, judge, bases):
         r = ref_decode_all(data)
         k = ref_class(r)
         classes[('random', k)] = classes.get(('random', k), 0) + 1
-        judge.one(data, k, f'random:{i}', judge='total', note=r['why'])
+        judge.one(data, k, f'random:{i}', judge='total', note=_reason(r))
     names = sorted(bases)
     for i in range(n_edit):
         b = bytearray(bases[names[i % len(names)]])
@@ -824,7 +843,7 @@ def leg_random(ctx, judge, bases):
         classes[('edit', k)] = classes.get(('edit', k), 0) + 1
         if k == 'wellformed':
             check_decode(ctx, data, r['v'], f'edit:{i}')
-        judge.one(data, k, f'edit:{names[i % len(names)]}:{i}', judge='total', note=r['why'])
+        judge.one(data, k, f'edit:{names[i % len(names)]}:{i}', judge='total', note=_reason(r))
     ctx.leg('random', random_strings=n_rand, random_edits_of_valid_datagrams=n_edit, max_len=maxlen,
             by_class={f'{a}/{b}': n for (a, b), n in sorted(classes.items())}, wall_s=round(time.time() - t0, 1))
 
@@ -845,7 +864,7 @@ def replay(ctx):
     judge = Judge(ctx, Renderer(obj.get('seed', ctx.seed), safe=True))
     if k == 'wellformed':
         check_decode(ctx, data, r['v'], 'replay')
-    judge.one(data, k, 'replay', judge='total', note=r['why'])
+    judge.one(data, k, rep.get('origin') or 'replay', judge='total', note=_reason(r))
 
 
 def run(ctx):
